@@ -16,7 +16,7 @@ PROPERTY = "C10"
 LEVEL = "model_checking"
 ASSUMPTIONS = [
     "level value tables are swapped for a permissive table (ordering patterns real) so that levels 1 and 66 can be used with tiny formats",
-    "pool of 12 conformant and 13 non-conformant sequences (independent builder + real encoder; the non-conformant ones break rules at the start, in the middle and at the end of a sequence); all lists up to length 3 (quick) / 4 (thorough, reduced pool)",
+    "pool of 17 conformant and 14 non-conformant sequences (independent builder + real encoder; the non-conformant ones break rules at the start, in the middle and at the end of a sequence); all lists up to length 3 (quick) / 4 (thorough, reduced pool)",
 ]
 M32 = 1 << 32
 
@@ -51,7 +51,15 @@ def sequence_pool():
     add_raw("enc-hq-lossy", encfeat.encode(cf, [encfeat.make_picture(cf, "noise", 100, 0)])[1])
     cf2 = encfeat.make_cf("c10-ld", profile=0, fragment_slice_count=1, picture_bytes=24)
     add_raw("enc-ld-frag", encfeat.encode(cf2, [encfeat.make_picture(cf2, "ramp", None, 0)])[1])
+    # sequences on the same base video format that override different subsets of its defaults
+    # (anything remembered per base format across sequences must not leak overrides)
+    add("hq-10bit-custom-range", B.simple_stream(hq2.but(signal_range=("custom", 64, 876, 512, 896)), 1, slice_kw=coeff))
+    add("hq-default-420", B.simple_stream(hq2.but(color_diff_format_index=None, frame_width=4, frame_height=4), 1, first_picture_number=9))
+    add("hq-interlaced-tff", B.simple_stream(hq2.but(source_sampling=1, pixel_aspect_ratio=("preset", 2), frame_rate=("custom", 30, 1)), 1))
+    add("base0-defaults-header-only", [B.seq_header(hq2.but(frame_width=None, clean_area=None, color_diff_format_index=None)), B.end_of_sequence()])
+    add("base0-clean-area-only-header-only", [B.seq_header(hq2.but(frame_width=None, clean_area=(2, 2, 1, 1), color_diff_format_index=None)), B.end_of_sequence()])
     # non-conformant members
+    add("bad-custom-dims-default-clean-area", [B.seq_header(hq2.but(clean_area=None)), B.end_of_sequence()], ok=False)
     add("bad-odd-fields", B.simple_stream(fields, 1), ok=False)
     add("bad-incomplete-fragmented", [B.seq_header(hq3), B.fragment_first(hq3, 0), B.fragment_slices(hq3, 0, 0, 1), B.end_of_sequence()], ok=False)
     add("bad-version-too-high", B.simple_stream(hq3, 1), ok=False)
@@ -130,7 +138,8 @@ def all_lists(tier):
     if tier == "thorough":
         for L in (1, 2, 3):
             out.extend(itertools.product(range(n), repeat=L))
-        small = [0, 1, 2, 4, 6, 7, 8, 12, 13, 14, 17, 20, 23]
+        names = [m[0] for m in p]
+        small = [names.index(x) for x in ("ld-v1", "hq-v2-2pics", "hq-v3-frag", "hq-fields", "level66-alternating", "hq-v3-empty", "hq-wrap", "hq-10bit-custom-range", "base0-defaults-header-only", "bad-custom-dims-default-clean-area", "bad-odd-fields", "bad-incomplete-fragmented", "bad-version-too-high", "bad-starts-with-padding", "bad-odd-first-field")]
         out.extend(itertools.product(small, repeat=4))
     else:
         for L in (1, 2, 3):
